@@ -216,7 +216,7 @@ Proof. exact sdk_compile_correct_wfs. Qed.
    indices below 16, no opaque command, every qalloc directly preceded by the set of its operand
    to an id below cap *)
 Theorem C05_lower_prog_code_ok : forall segs cap bs st,
-  Forall (fun seg => bwfs seg = true) segs -> qpeak segs <= cap ->
+  Forall (fun seg => bwfs seg = true) segs -> (qpeak segs <= cap)%nat ->
   lower_prog true (prog_of segs) = Ok (bs, st) ->
   forall b, In (Some b) bs -> Bridge_SdkAsm.code_ok cap (flatten b) = true.
 Proof. exact lower_prog_code_ok. Qed.
@@ -330,6 +330,9 @@ Proof.
         -- apply sxl_done. reflexivity.
   - reflexivity.
 Qed.
+
+Example C05_code_ok_nonvacuous : Nat.leb (qpeak ex_segs) 2 = true.
+Proof. vm_compute. reflexivity. Qed.
 
 Print Assumptions C05_flatten_correct.
 Print Assumptions C05_negated_branch.
